@@ -1798,6 +1798,9 @@ func ruleContChannelsMade(r *Run, rule string) {
 			if !ok || ShortType(tv.Type) != "sm.block" {
 				return true
 			}
+			if len(cl.Elts) == 0 {
+				return true // the zero block ("no current block"), never executed
+			}
 			nLit++
 			v := keyValue(cl, "contCheckResult")
 			if (v == nil || !isMake(pkg.TypesInfo, v)) && badLit == "" {
